@@ -58,8 +58,10 @@ def make_data(case):
         sc = sc + sc.T
         x = x * sc[:, :, None]
         y = y * sc[:, :, None]
-    if case.get('paired_corr'):
-        y = y + 0.0
+    if case.get('counts'):
+        # integer-valued data (streamline counts) -- exactly representable in every numeric dtype
+        x = np.round(np.abs(x) * 20)
+        y = np.round(np.abs(y) * 20)
     return x, y
 
 
@@ -94,6 +96,8 @@ def cases(tier, seed):
                          'const': (n - 1, 0) if rep % 2 == 0 else None, 'const_same': bool(rs.rand() < .5),
                          'scales': (rep + nx) % 3 == 0}
                     out.append(c)
+                    if rep % 4 == 1:
+                        out.append(dict(c, counts=True, scales=False, const=None, thr=1.0, k=10))
     return out
 
 
@@ -249,6 +253,18 @@ def run(case, bct, REC):
         raise
     except Exception as e:  # noqa
         REC.check(PROP, 'nbs_bct', 'reorder_subjects', False, dict(det, exception=repr(e)[:200]))
+    if case.get('counts'):
+        # the same values stored as unsigned / signed integers and float32 must give the same answer
+        for dt in (np.uint16, np.uint8 if max(x.max(), y.max()) < 256 else np.uint32, np.int64, np.float32):
+            try:
+                p2, a2, n2 = bct.nbs_bct(x.astype(dt), y.astype(dt), thr, k=k, tail=tail, paired=paired, seed=rngmod.SpyRandomState(case['rs']))
+            except CaseTimeout:
+                raise
+            except Exception as e:  # noqa
+                REC.check(PROP, 'nbs_bct', 'dtype_independent', False, dict(det, dtype=str(np.dtype(dt)), exception=repr(e)[:200]), ('dtype:' + str(np.dtype(dt)),))
+                continue
+            same = np.array_equal(np.asarray(a2), adj) and np.allclose(np.asarray(p2), pvals, rtol=0, atol=1e-12) and np.array_equal(np.asarray(n2), null)
+            REC.check(PROP, 'nbs_bct', 'dtype_independent', bool(same), dict(det, dtype=str(np.dtype(dt)), adj_dtype=a2, pvals_dtype=p2), ('dtype:' + str(np.dtype(dt)),))
     if (len(comps) >= 2 or any(l >= 3 for _, l in comps)) and len(set(null.tolist())) >= 2:
         REC.note_nontrivial(PROP, x, y, thr, tail, paired, k)
     if len(comps) >= 2:
